@@ -1,16 +1,13 @@
 CONSTANTS
-  MaxN = 2
-  MaxH = 2
-  MaxE = 2
-  MaxP = 2
+  MaxN = 4
+  MaxH = 1
+  MaxE = 1
+  MaxP = 9
   MaxM = 1
-  AllowArm = TRUE
+  AllowArm = FALSE
   Patched = TRUE
-  MaxOps = 5
-  Mode = "gate"
-SPECIFICATION MCSpec
-VIEW GateView
-INVARIANT TypeOK
+  Families <- FamNestHeld
+SPECIFICATION ImplShapesSpec
 INVARIANT RcExact
 INVARIANT RootedIffExternal
 INVARIANT NoLiveFreed
@@ -23,5 +20,5 @@ INVARIANT EphValueIffKeyLive
 INVARIANT NoMarkedCleared
 INVARIANT RefInv
 INVARIANT EphValueOnlyWhileKeyLive
-PROPERTY RefSpec
+PROPERTY RefStep
 CHECK_DEADLOCK FALSE
